@@ -57,6 +57,28 @@ func loadProgram(repo string, tags string) (*Program, error) {
 		}
 	}
 	all := ssautil.AllFunctions(prog)
+	// methods of generic types are not in any method set: add their (type-parametric) bodies
+	for _, sp := range spkgs {
+		if sp == nil {
+			continue
+		}
+		sc := sp.Pkg.Scope()
+		for _, n := range sc.Names() {
+			tn, ok := sc.Lookup(n).(*types.TypeName)
+			if !ok {
+				continue
+			}
+			named, ok := tn.Type().(*types.Named)
+			if !ok {
+				continue
+			}
+			for i := 0; i < named.NumMethods(); i++ {
+				if f := prog.FuncValue(named.Method(i)); f != nil {
+					all[f] = true
+				}
+			}
+		}
+	}
 	for fn := range all {
 		if fn.Pkg == nil && fn.Origin() == nil {
 			continue
